@@ -17,6 +17,7 @@ import DaskModel.Model.HistogramDD
 import DaskModel.Model.RavelIndex
 import DaskModel.Model.UniqueNaNIO
 import DaskModel.Generated.ChunkTolerance
+import DaskModel.Model.PadEdgeIO
 open Dask
 open Dask.Chunks
 open Dask.Creation
@@ -1025,5 +1026,6 @@ def table : List (String × Handler) := [
   ("merge_full", hMergeFull), ("find_split", hFindSplit), ("find_merge", hFindMerge), ("plan", hPlan),
   ("rechunk_locate", hRechunkLocate), ("auto_chunks", hAutoChunks), ("auto_sound", hAutoSound),
   ("balance", hBalance)] ++ Dask.UniqueNaNIO.handlers
+  ++ Dask.PadEdge.handlers
 
 def main : IO Unit := runDriver table
